@@ -1513,6 +1513,8 @@ def len_term(items):
             d = digits_term(x)
             if is_sym(d): terms.append(d)
             else: n += d
+        elif isinstance(x, FloatLit) and x.lenv is not None:
+            terms.append(x.lenv)
         else:
             n += elem_len(x)
     if not terms:
